@@ -341,6 +341,7 @@ func NewWorld(id string, exts ...graphql.Extension) *World {
 				"name": &graphql.Field{Type: graphql.String, Args: graphql.FieldConfigArgument{"up": &graphql.ArgumentConfig{Type: graphql.Boolean}}},
 				"kind": &graphql.Field{Type: w.Kind},
 				"peer": &graphql.Field{Type: w.Node, Args: graphql.FieldConfigArgument{"as": &graphql.ArgumentConfig{Type: graphql.String}}},
+				"meta": &graphql.Field{Type: w.Obj["Leafy"]},
 			}
 		}),
 		ResolveType: func(p graphql.ResolveTypeParams) *graphql.Object { return w.resolveType(p, "Node") },
@@ -375,6 +376,7 @@ func NewWorld(id string, exts ...graphql.Extension) *World {
 			"name": &graphql.Field{Type: graphql.String, Args: graphql.FieldConfigArgument{"up": &graphql.ArgumentConfig{Type: graphql.Boolean}}},
 			"kind": &graphql.Field{Type: w.Kind},
 			"peer": &graphql.Field{Type: w.Node, Args: graphql.FieldConfigArgument{"as": &graphql.ArgumentConfig{Type: graphql.String}}},
+			"meta": &graphql.Field{Type: w.Obj["Leafy"]},
 		}
 	}
 	nodeIf := []*graphql.Interface{w.Node}
